@@ -1,6 +1,10 @@
 """C16 — the ambient dependency setting is scoped, restored and isolated.
 
-proof  : Pun.Props.C16 (core Lean): restoration for every well-nested history, operator = method o get,
+proof  : Pun.Props.C16Gen: the `match dependency` tables of add/mul/pow, the swap chains and delegation of sub/div,
+         the bare operators' method + dependency argument, Distribution.__pow__, and set/try-yield-finally-reset of
+         context.py are re-extracted from the source on every run (translator/dispatch.py) and proved equal to the
+         hand model, so the theorems below transfer to what the source says now.
+         Pun.Props.C16 (core Lean): restoration for every well-nested history, operator = method o get,
          isolation under EVERY schedule, task copy / thread fresh start, unknown code fails
 tie    : real `dependency()` blocks executed by real threads / asyncio tasks / asyncio.to_thread workers,
          stepped in lock-step through enumerated (or sampled) interleavings; after every event
@@ -1213,7 +1217,8 @@ def run(ctx: core.Check):
                        "a generator entered in one context and closed in another (ValueError from Token reset) is not exercised",
                        "operators with a non-p-box operand (numbers ignore the dependency; Distribution hard-codes 'f') are outside this check"]
     core.stub_moments()
-    ctx.lean_stage(["Pun.Props.C16"])
+    ctx.lean_stage(["Pun.Props.C16", "Pun.Props.C16Gen"],
+                   generators=[("pbox_abc.py dispatch tables, operators; context.py manager", _gen)])
     rng = ctx.rng
     pool = Pool(rng)
     ctx.extra_cov["operands_distinguish_all_four_dependencies_for_every_operator"] = pool.distinguishing
@@ -1453,6 +1458,15 @@ def run(ctx: core.Check):
     if pool.snapshot() != snap0:
         ctx.fail({"call": "operator", "kind": "operand-overwritten"}, {"stream": "all", "pool": pool.desc},
                  "an operand p-box was modified in place by an arithmetic call")
+
+
+def _gen():
+    from .translator import dispatch as tr
+    res = tr.generate(core.REPO, core.LEAN / "Pun/Gen/DispatchGen.lean")
+    t = res["tables"]
+    return ("ok: match tables add/mul/pow %d/%d/%d rows, defaults %s/%s/%s; swap chains sub %s div %s; %d operators; context %s"
+            % (len(t["add"][0]), len(t["mul"][0]), len(t["pow"][0]), t["add"][1], t["mul"][1], t["pow"][1],
+               res["delegate"]["sub"][0], res["delegate"]["div"][0], len(res["operators"]) + 1, res["context"]))
 
 
 def replay(obj):
